@@ -55,7 +55,7 @@ def dedup : List String → List String
 
 def isTypeComb (c : Comb) : Bool := !c.builtin && !c.isFunc
 
-def typeCombs (s : Schema) (T : String) : List Comb := s.filter (fun c => isTypeComb c && c.tyName == T)
+def typeCombs (s : Schema) (T : String) : List Comb := (s.filter isTypeComb).filter (fun c => c.tyName == T)
 
 def typeOrder (s : Schema) : List String := dedup ((s.filter isTypeComb).map (·.tyName))
 
@@ -228,16 +228,20 @@ def mapping (c : Comb) (n : String) : Option Int :=
   | some i => some (-((i : Int) + 1))
   | none => (lastIdx (fun f : Field => f.name == n) c.fields).map (fun i => (i : Int))
 
+/-- the head test of `compareTypes`: local names (fields / template arguments) must map to the same index,
+other names must be equal. -/
+def headBad (ni oi : Option Int) (nn on : String) : Bool :=
+  match ni, oi with
+  | some _, none => true
+  | none, some _ => true
+  | some a, some b => a != b
+  | none, none => nn != on
+
 mutual
   /-- `compareTypes(newType, oldType)`; note that `Bare` is never looked at. -/
   def cmpType (nm om : String → Option Int) : TypeRef → TypeRef → R
     | .mk nn _ na, .mk on _ oa =>
-      let bad := match nm nn, om on with
-        | some _, none => true
-        | none, some _ => true
-        | some a, some b => a != b
-        | none, none => nn != on
-      if bad then .rej else cmpArgs nm om na oa
+      if headBad (nm nn) (om on) nn on then .rej else cmpArgs nm om na oa
   /-- the loop over `oldType.Args` indexing `newType.Args[i]` (panics when the new list is shorter). -/
   def cmpArgs (nm om : String → Option Int) : Args → Args → R
     | _, .nil => .ok
